@@ -179,6 +179,18 @@ def insert_defaults(data, defaults):
             data[key] = value
 
 
+def _copy_unshared(data):
+    """
+    Deep copy of nested dicts and lists in which no two positions share an
+    object, unlike copy.deepcopy() which preserves sharing.
+    """
+    if isinstance(data, MutableMapping):
+        return {key: _copy_unshared(value) for key, value in data.items()}
+    if isinstance(data, list):
+        return [_copy_unshared(value) for value in data]
+    return copy.deepcopy(data)
+
+
 @attr.s(auto_attribs=True, kw_only=True, slots=True)
 class Epoch:
     """
@@ -2060,8 +2072,11 @@ class Graph:
         if not isinstance(data, MutableMapping):
             raise TypeError("data is not a dictionary")
 
-        # Don't modify the input data dict.
-        data = copy.deepcopy(data)
+        # Don't modify the input data dict. The fields are consumed by
+        # popping them, so sub-objects that occur several times in the input
+        # (YAML aliases, or a list reused in several Builder calls) must
+        # each get a copy of their own.
+        data = _copy_unshared(data)
 
         check_allowed(
             data,
